@@ -28,7 +28,12 @@ PROP = {
                   "Tie/spec: AggregationCollector JSON of every generated (corpus, request, query) vs `direct` evaluated in Coq (spec) and vs the model's "
                   "collect/merge_fruits/finalize on a multi-segment partition (tie); 1-6 segment partitions; DistributedAggregationCollector fruits of separately searched "
                   "indexes merged in permuted and regrouped orders and through postcard round trips must reproduce the single-segment JSON or be accepted by `match_res`; "
-                  "bucket limits at count-1 / count / count+1 must give error / full result / full result.",
+                  "bucket limits at count-1 / count / count+1 must give error / full result / full result; "
+                  "terms ordered by _key with size 1-3 and the default segment_size over > segment_size distinct terms per segment (top-level on i64 / u64 >= 8 000 000 columns = hash-map "
+                  "storage, and nested under range / histogram / terms parents) are compared EXACTLY with `direct` (for key order the per-segment cut loses nothing); "
+                  "fractional histograms (interval/offset 0.1, 0.3, 2.5+0.7, ... on fractional f64 values; shapes terms>histogram leaf over full columns = fused collector, "
+                  "histogram, range>histogram): every non-empty bucket key and count must equal the documented formula floor((v-offset)/interval)*interval+offset evaluated "
+                  "independently in f64, and 1 segment / 2-5 segments / distributed merge orders must give identical JSON (decided on the implementation side).",
     "level_note": "Trusted: Coq kernel + vm_compute; harness (corpus/request generators, JSON -> observation printer, the Rust mirror of the F141 classifier used only for "
                   "routing: Coq re-evaluates the class on every reported case); serde_json/postcard round trips checked on the implementation only. "
                   "The model stores no zero-count range buckets in intermediate results (they are re-created at finalisation); observable results are identical for >= 1 segment. "
@@ -45,7 +50,7 @@ PROP = {
         "sketches (percentiles, cardinality), extended_stats, date_histogram, composite, top_hits: not modelled, not claimed"],
     "assumptions": ["every segment keeps all its terms (segment_size >= number of distinct terms per segment)",
                     "at least one segment is searched (an index without segments returns no range buckets at all)",
-                    "integer-valued numeric data; histogram interval/offset dyadic or small integers",
+                    "Coq-evaluated cases: integer-valued numeric data, histogram interval/offset dyadic or small integers; fractional values/intervals only through the f64 oracle on the implementation side",
                     "terms min_doc_count >= 1; no overlapping ranges"],
     "shard_timeout": 900,
 }
